@@ -17,6 +17,7 @@ obligations `gfcauchy_row0..5` (gen/GenTablesOkC*.lean).
 import SnapraidVerif.Raid.Cauchy
 import SnapraidVerif.Raid.MdsCode
 import SnapraidVerif.Raid.PowerMds
+import SnapraidVerif.Raid.Invert
 
 namespace SnapraidVerif.Props.C03
 open Raid MdsCode
@@ -78,5 +79,48 @@ theorem min_distance_z (np nd : ℕ) (hnp : np ≤ 3) (hnd : nd ≤ 255) (D D' :
 
 theorem genz_val (np nd : ℕ) (hnp : np ≤ 3) (hnd : nd ≤ 255) (j : Fin np) (i : Fin nd) :
     (genz np nd hnp hnd j i).val = power j i := rfl
+
+/-! ### the decoder itself (`raid_invert` + the multiplication of `raid_rec*`) -/
+
+/-- what `raid_rec*` feeds to the inverse: the parity read from disk plus (xor) the contribution
+    of the surviving data disks is the contribution of the failed ones alone -/
+theorem reduced_parity {np nd k : ℕ} (A : Fin np → Fin nd → GF256) (c : Fin k → Fin nd) (hc : Function.Injective c)
+    (D : Fin nd → GF256) (j : Fin np) :
+    parity A D j + ∑ i ∈ (Finset.univ.image c)ᶜ, A j i * D i = ∑ b, A j (c b) * D (c b) := by
+  unfold parity
+  rw [← Finset.sum_add_sum_compl (Finset.univ.image c) (fun i => A j i * D i), add_assoc, GF256.add_self, add_zero,
+    Finset.sum_image (fun a _ b _ h => hc h)]
+
+/-- **C03 for the decoder model, Cauchy generator**: for any `k` failed data disks and any `k`
+    parities, `raid_invert` (model) meets no zero pivot and the decoded bytes are the lost ones -/
+theorem cauchy_decode_exact (np nd : ℕ) (hnp : np ≤ 6) (hnd : nd ≤ 251) (k : ℕ)
+    (r : Fin k → Fin np) (c : Fin k → Fin nd) (hr : Function.Injective r) (hc : Function.Injective c) :
+    ∃ V, invert (subMat (gen np nd hnp hnd) k r c) = some V ∧
+      ∀ D : Fin nd → GF256,
+        (toMx k V).mulVec (fun a => parity (gen np nd hnp hnd) D (r a) +
+            ∑ i ∈ (Finset.univ.image c)ᶜ, gen np nd hnp hnd (r a) i * D i) = fun b => D (c b) := by
+  obtain ⟨V, hV, h⟩ := decode_exact (gen np nd hnp hnd) (cauchy_all_minors np nd hnp hnd) k r c hr hc
+  refine ⟨V, hV, fun D => ?_⟩
+  rw [← h D]
+  congr 1
+  funext a
+  exact reduced_parity _ c hc D (r a)
+
+/-- the same for the alternate (z) generator -/
+theorem power_decode_exact (np nd : ℕ) (hnp : np ≤ 3) (hnd : nd ≤ 255) (k : ℕ)
+    (r : Fin k → Fin np) (c : Fin k → Fin nd) (hr : Function.Injective r) (hc : Function.Injective c) :
+    ∃ V, invert (subMat (genz np nd hnp hnd) k r c) = some V ∧
+      ∀ D : Fin nd → GF256,
+        (toMx k V).mulVec (fun a => parity (genz np nd hnp hnd) D (r a) +
+            ∑ i ∈ (Finset.univ.image c)ᶜ, genz np nd hnp hnd (r a) i * D i) = fun b => D (c b) := by
+  obtain ⟨V, hV, h⟩ := decode_exact (genz np nd hnp hnd) (power_all_minors np nd hnp hnd) k r c hr hc
+  refine ⟨V, hV, fun D => ?_⟩
+  rw [← h D]
+  congr 1
+  funext a
+  exact reduced_parity _ c hc D (r a)
+
+/-- non-vacuity: the model inverts a concrete 2×2 Cauchy minor (rows 1,2; disks 0,3) -/
+example : (invert [[cauchy 1 0, cauchy 1 3], [cauchy 2 0, cauchy 2 3]]).isSome = true := by decide +kernel
 
 end SnapraidVerif.Props.C03
